@@ -122,7 +122,10 @@ def replay(contract, label, model, note=""):
             f = run_history(hist, dt=float(model.get("dt", 1.0)) or 1.0, duration=duration, inplace=bool(model.get("inplace", False)), clears=clears)
             if f:
                 return {"reproduced": True, "failure": f, "concrete": f["input"], "search": {"points_tried": tried}}
-    return {"reproduced": False, "search": {"points_tried": tried}}
+    r = sweep("quick", 0)  # the bounded oracle's own grid (longer durations, every history of the quick length)
+    if r["failures"]:
+        return {"reproduced": True, "failure": r["failures"][0], "concrete": r["failures"][0]["input"], "search": {"points_tried": tried + r["standins"][0]["cases"]}}
+    return {"reproduced": False, "search": {"points_tried": tried + r["standins"][0]["cases"]}}
 
 
 def replay_native(rp):
